@@ -3,7 +3,7 @@ CONSTANTS
   Ident = "konsole"
   Style3 = "iterm2"
   Bits = 3
-  Fams = {"Q", "O", "T", "I"}
+  Fams = {"R", "O", "T", "I"}
   WithBad = FALSE
   WithInv = FALSE
   Dyn = FALSE
